@@ -54,7 +54,13 @@ def build_harness(release=False):
 
 
 def run_harness(exe, args, timeout=600):
-    p = subprocess.run([exe] + args, stdout=subprocess.PIPE, stderr=subprocess.PIPE, text=True, timeout=timeout)
+    env = dict(os.environ)
+    if "--out" in args:
+        bf = args[args.index("--out") + 1] + ".buildfail"
+        if os.path.exists(bf):
+            os.remove(bf)
+        env["XV_BUILDFAIL"] = bf
+    p = subprocess.run([exe] + args, stdout=subprocess.PIPE, stderr=subprocess.PIPE, text=True, timeout=timeout, env=env)
     if p.returncode != 0:
         log(p.stderr[-3000:])
         raise ToolError(f"harness {' '.join(args[:1])} exited {p.returncode}")
@@ -234,6 +240,32 @@ def validate_trace_flat(trace_path, module, cfg, nshards=12, timeout=900, tag="f
     rejects.sort(key=lambda j: (j["line"], j["prop"]))
     shutil.rmtree(d, ignore_errors=True)
     return dict(events=n, rejects=rejects, states=gen, distinct=dist, lines=lines)
+
+
+def buildfail(out_path, prop, violations, known, tag):
+    """States the harness could not build through the public API are logged as construction episodes; TLC points at the
+    call that deviates from L1.  Rejections charged to `prop` become violations of this check; if L1 accepts every
+    construction step although the read-back differs, the machinery itself is wrong (tool error)."""
+    bf = out_path + ".buildfail"
+    if not os.path.exists(bf) or os.path.getsize(bf) == 0:
+        return 0
+    v = validate_trace(bf, nshards=8, tag=tag + "_bf")
+    if not v["rejects"]:
+        raise ToolError("a scenario could not be rebuilt in the real crate although every construction call is an L1 step")
+    other = 0
+    for rj in v["rejects"]:
+        if rj["prop"] != prop:
+            other += 1
+            continue
+        if rj["known"]:
+            known.setdefault(rj["known"], 0)
+            known[rj["known"]] += 1
+            continue
+        if len(violations) < 25:
+            violations.append(save_replay(prop, scenario_for(v["lines"], rj["line"]), rj))
+            log(f"  reject (while constructing a scenario): {rj['op']} a={rj['a']} res={rj['res']} detail={json.dumps(rj['detail'])[:200]}")
+    log(f"[buildfail] {v['events']} construction events, {len(v['rejects'])} rejections ({other} charged to other properties)")
+    return other
 
 
 def scenario_for(lines, idx):
